@@ -250,7 +250,7 @@ def statAnswer : Res → Option StatInfo
 /-- The calls of one question and its answer: util.c `exec(argv, -1)` (`execP none`: `open("/dev/null")`, `fork`,
 `waitpid`, `close`), or `stat(path)`. -/
 def sysCall : Req → Prog SysAns
-  | .command _ => (execP none).bind fun rc => .ret (.status rc)
+  | .command av => (execP (av.map cstr) none).bind fun rc => .ret (.status rc)
   | .isDir p => (call (.stat p)).bind fun r => .ret (.stat (statAnswer r))
   | .fileTime p _ => (call (.stat p)).bind fun r => .ret (.stat (statAnswer r))
 
